@@ -436,7 +436,15 @@ def execute(sc, tape=None):
             if sh["token"] or rq["layers"] > 1:
                 shapes.add((proto.PROTOCOLS[rq["proto"]][1], sh["token"], sh["placement"], rq["style"], rq["layers"],
                             sh["suffix"], sh["base"], sc["handlers"]))
-        res = common.result(viol, None, counters, common.run_digest([runa, runb], ra + rb), [],
+        # digest: requests that carry the (process-specific) scratch path are reduced to length + class
+        dig_in = []
+        for i, rq in enumerate(sc["requests"]):
+            if "{S}" in rq["sel"]:
+                dig_in.append([len(ra[i]), len(rb[i]), len(la[i]), len(lb[i])])
+            else:
+                dig_in.append([ra[i].decode("latin-1"), rb[i].decode("latin-1"), la[i], lb[i]])
+        dig = common.digest(dig_in, runa.sim.switch_trace, runb.sim.switch_trace)
+        res = common.result(viol, None, counters, dig, [],
                             0.0, runa.sim.steps + runb.sim.steps, runa.sim.switches + runb.sim.switches)
         res["shapes"] = [list(s) for s in sorted(shapes, key=repr)]
         return res
